@@ -555,9 +555,20 @@ Definition inner_nonce (w : nonce_wrap) (n : bytes) : bytes :=
 (* ------------------------------------------------ toy primitives (spies) *)
 Definition mixN (h x : N) : N := ((h * 31 + x + 1) mod 1000000007)%N.
 Definition thash (l : bytes) : N := fold_left mixN l 7%N.
-Definition tag_bytes (acc : N) (k : Z) : bytes :=
-  map (fun i => (mixN acc (N.of_nat i) mod 256)%N) (seq 0 (Z.to_nat k)).
-Definition toy_mac (ms : Z) (x : bytes) : bytes := tag_bytes (thash x) ms.
+(* a second, independent rolling hash: the toy tag carries both accumulators in
+   full (4 + 4 bytes), so it is injective in them; a change of a single byte
+   always changes the first accumulator (31^k is invertible mod the prime), any
+   other change collides with probability ~1e-18 *)
+Definition mixN2 (h x : N) : N := ((h * 257 + x + 3) mod 998244353)%N.
+Definition thash2 (l : bytes) : N := fold_left mixN2 l 11%N.
+Definition tag_bytes (x : bytes) (k : Z) : bytes :=
+  let a1 := thash x in let a2 := thash2 x in
+  firstn (Z.to_nat k)
+    (be_n 4 a1 ++ be_n 4 a2 ++
+     map (fun i => (mixN (mixN a1 (N.of_nat i)) a2 mod 256)%N) (seq 0 (Z.to_nat k))).
+(* length-prefixed (injective) encoding of a field *)
+Definition lp (l : bytes) : bytes := be16 (zlen l) ++ l.
+Definition toy_mac (ms : Z) (x : bytes) : bytes := tag_bytes x ms.
 Fixpoint xor_ks (pos : Z) (x : bytes) : bytes :=
   match x with
   | [] => []
@@ -565,7 +576,7 @@ Fixpoint xor_ks (pos : Z) (x : bytes) : bytes :=
   end.
 Definition toy_stream := xor_ks.
 Definition toy_tag (ovh : Z) (w : nonce_wrap) (n ad p : bytes) : bytes :=
-  tag_bytes (thash (inner_nonce w n ++ [255%N] ++ ad ++ [254%N] ++ p)) ovh.
+  tag_bytes (lp (inner_nonce w n) ++ lp ad ++ p) ovh.
 Definition toy_seal (ovh : Z) (w : nonce_wrap) (n ad p : bytes) : bytes :=
   xor_ks (Z.of_N (thash (inner_nonce w n) mod 256)) p ++ toy_tag ovh w n ad p.
 Definition toy_open (ovh : Z) (w : nonce_wrap) (n ad c : bytes) : option bytes :=
